@@ -620,9 +620,15 @@ class SFloat(float, metaclass=_Meta):
     _shadow_of = float
 
     def __new__(cls, value=0.0, *a):
+        if cls is SFloat and _attr(value, float, "_q") is not None:
+            return value  # float(<exact rational>) is that rational
         if f_is_sym(value):
             return mkf(cls, value._ft, float.__float__(value))
         if is_sym(value):
+            if TIME_MODEL and cls is SFloat and isinstance(value, int) and not isinstance(value, SBool):
+                c = int.__index__(value)
+                if branch(z3.And(value._t >= -(2**53), value._t <= 2**53), abs(c) <= 2**53):
+                    return SRat(value._t, 1, c)  # exactly representable: float(int) loses nothing
             _pin_int(value, "float(int)")
             value = int.__index__(value)
         from . import strs
